@@ -191,11 +191,14 @@ instance (l : Line) : Decidable (garbage l) :=
 
 /-- **a garbage line inside a hunk**: after complete hunks `hs` comes the range line of `hd`, the first lines `pre` of its
     body and then — where `suf`, the rest of the body, should begin — a line `bad` that is no hunk line: `parser_error`,
-    whatever follows -/
+    whatever follows.
+    CHANGED with the parser model change "a CR at the very end of the patch is what is left of a CRLF" (D85): `hcr` is new — a
+    lone CR as the unterminated last line of the input is handed out by `Parser.getLine` as an EMPTY line with a CRLF ending,
+    which the body loop takes for an empty context line, not for garbage. -/
 theorem parseUnifiedBody_garbled (hs : List Hunk) (hd : Hunk) (pre suf : List PatchLine) (bad : Line) (after : List Line)
     (lineNo : Nat)
     (hw : ∀ h ∈ hs, h.writable = true) (hwd : hd.writable = true) (hl : hd.lines = pre ++ suf) (hsuf : suf ≠ [])
-    (hbad : garbage bad) :
+    (hbad : garbage bad) (hcr : ¬ (bad.newline = .none ∧ bad.content = [CR])) :
     parseUnifiedBody { s := { rest := hs.flatMap hunkLines ++ ⟨rangeText hd, .lf⟩ :: (bodyLines pre ++ bad :: after) },
                        lineNo := lineNo }
       = .error .parserError := by
@@ -206,14 +209,27 @@ theorem parseUnifiedBody_garbled (hs : List Hunk) (hd : Hunk) (pre suf : List Pa
   unfold parseUnifiedBody
   simp only []
   rw [e]
-  have hg : ∃ l' par5, Parser.getLine ⟨⟨bad :: after, false, false⟩, n'⟩ = (some l', par5) ∧ l'.content = bad.content := by
+  have hg : ∃ l' par5 cs', Parser.getLine ⟨⟨bad :: after, false, false⟩, n'⟩ = (some l', par5) ∧ l'.content = c :: cs' := by
     by_cases hn : bad.newline = .none
-    · refine ⟨⟨bad.content, .lf⟩, ⟨⟨after, true, false⟩, n' + 1⟩, ?_, rfl⟩
+    · by_cases hlast : bad.content.getLast? = some CR
+      · -- the CR at the very end of the text is taken away (D85); the line still begins with `c`
+        have hcs : cs ≠ [] := by
+          intro h0; subst h0
+          rw [hc] at hlast
+          simp only [List.getLast?_singleton, Option.some.injEq] at hlast
+          exact hcr ⟨hn, by rw [hc, hlast]⟩
+        refine ⟨⟨bad.content.dropLast, .crlf⟩, ⟨⟨after, true, false⟩, n' + 1⟩, cs.dropLast, ?_, ?_⟩
+        · simp [Parser.getLine, PStream.getLine, hn, hlast]
+        · rw [hc]
+          cases cs with
+          | nil => exact absurd rfl hcs
+          | cons x xs => simp [List.dropLast]
+      · refine ⟨⟨bad.content, .lf⟩, ⟨⟨after, true, false⟩, n' + 1⟩, cs, ?_, hc⟩
+        simp [Parser.getLine, PStream.getLine, hn, hlast]
+    · refine ⟨bad, ⟨⟨after, false, false⟩, n' + 1⟩, cs, ?_, hc⟩
       simp [Parser.getLine, PStream.getLine, hn]
-    · refine ⟨bad, ⟨⟨after, false, false⟩, n' + 1⟩, ?_, rfl⟩
-      simp [Parser.getLine, PStream.getLine, hn]
-  obtain ⟨l', par5, hg, hl'⟩ := hg
-  rw [unifiedLoop_content_bad g _ l' par5 c cs hg rfl (by rw [hl', hc]; rfl)
+  obtain ⟨l', par5, cs', hg, hl'⟩ := hg
+  rw [unifiedLoop_content_bad g _ l' par5 c cs' hg rfl (by rw [hl']; rfl)
     (by rintro (h | h | h) <;> contradiction)]
 
 /-! ### the bytes of a hunk that is cut short -/
